@@ -123,6 +123,10 @@ fn strategy(tier: Tier) -> BoxedStrategy<Case> {
                 facts.ann_calls.retain(|c| f2.recs[c.kind as usize].iter().any(|r| r.id == c.rec));
                 facts.version = (0, 0, 0);
             }
+            let mut noise = noise;
+            maybe_headerless(&mut facts, path, &mut noise, keys[0] as u8);
+            // a header-less text case is not compared with another path that has a version field
+            let other_path = if noise.no_header { None } else { other_path };
             Case { base: OntCase { facts, path, noise }, keys, other_path }
         },
     );
